@@ -15,6 +15,7 @@ import (
 	"fmt"
 	"strings"
 	"sync"
+	"sync/atomic"
 	"time"
 
 	"mosn.io/api"
@@ -120,10 +121,7 @@ func newHost(addr string) types.Host {
 }
 
 func setWord(h types.Host, w uint64) {
-	h.ClearHealthFlag(api.HealthFlag(-1))
-	if w != 0 {
-		h.SetHealthFlag(api.HealthFlag(w))
-	}
+	atomic.StoreUint64(cluster.GetHealthFlagPointer(h.AddressString()), w)
 }
 
 func tokRes(s string) string {
@@ -213,7 +211,7 @@ func runFactory(u, h uint32, word0 uint64, results string) (string, string) {
 		hc.SetHealthCheckerHostSet(cluster.NewHostSet([]types.Host{host}))
 		select {
 		case <-rec.full:
-		case <-time.After(20 * time.Second):
+		case <-time.After(5 * time.Second):
 		}
 		hc.Stop()
 	}
